@@ -43,6 +43,7 @@ import json
 import os
 import re
 import shutil
+import sys
 import tempfile
 import types
 
@@ -405,9 +406,10 @@ class Run:
     """one case: configuration + list of global interruption points (the n-th point counts the atomic actions
     performed since the previous interruption, across calls of the step function)"""
 
-    def __init__(self, cfg, crashes, workdir, pre=0, restart=False):
+    def __init__(self, cfg, crashes, workdir, pre=0, restart=False, main=False):
         self.cfg = cfg
-        self.restart = restart    # a fresh module object for every call after an interruption / exception (process restart)
+        self.main = main          # drive the script's main() (one call = one process run) instead of the step function
+        self.restart = restart or main    # a fresh module object for every call after an interruption / exception (process restart)
         self.extra_bad = None
         self.saw = set()          # directory states met at the start of a call of the step function
         self.crashes = list(crashes)
@@ -454,6 +456,10 @@ class Run:
         opts = {}
         i = 0
         excludes = None
+        known = ("--mode", "--screen", "--training_screen", "--test_screen", "--thetas", "--distance_matrix", "--name", "--outdir",
+                 "--initialize", "--reveal", "-work-dir")
+        other = [str(c) for j, c in enumerate(cmd[3:]) if not (str(c) in known or (j > 0 and str(cmd[3:][j - 1]) in known)
+                                                                or str(c).startswith("--excludes="))]
         while i < len(cmd):
             c = cmd[i]
             if c.startswith("--excludes="):
@@ -464,13 +470,10 @@ class Run:
                 i += 2
             else:
                 i += 1
-        pos = [i for i in range(len(cmd) - len(EXTRA_ARGS) + 1) if list(cmd[i:i + len(EXTRA_ARGS)]) == EXTRA_ARGS]
-        if len(pos) != 1 and self.extra_bad is None:
-            self.extra_bad = [str(c) for c in cmd][-8:]
         out = opts["--outdir"]
         st = step_of_path(self.outdir, out)
         mode = opts["--mode"]
-        l = {"iter": st[0], "plate": st[1], "screen": None, "test": None, "chains": [], "excludes": excludes}
+        l = {"iter": st[0], "plate": st[1], "screen": None, "test": None, "chains": [], "excludes": excludes, "other": other}
         if mode == "retrospective" and opts.get("--initialize") == "true":
             l["wf"] = 0
             l["screen"] = self.parse_ref(opts["--screen"])
@@ -497,6 +500,7 @@ class Run:
             raise FakeFailure("unknown mode")
         if opts.get("-work-dir") != os.path.join(out, "work"):
             raise FakeFailure("unexpected work dir")
+        self.modelled_done = False
         text = show_launch(l)
         self.events.append("L" + text)
         self.launches.append([(st[0], st[1]), text, False, l])
@@ -539,10 +543,28 @@ class Run:
     def _process(self, max_invocations):
         mod = load_script(fresh=self.restart)
         cfg = self.cfg
-        step = mod.run_next_retrospective_step if cfg["mode"] == "r" else mod.run_next_prospective_step
         saved = mod.subprocess
         mod.subprocess = types.SimpleNamespace(check_call=self.check_call)
         extra = list(EXTRA_ARGS)
+
+        def step(output_dir, input_screen, extra_args, batch_size):
+            if not self.main:
+                fn = mod.run_next_retrospective_step if cfg["mode"] == "r" else mod.run_next_prospective_step
+                return fn(output_dir=output_dir, input_screen=input_screen, extra_args=extra_args, batch_size=batch_size)
+            # a whole process run: `python batchie.py --mode .. --outdir .. --screen .. [--batch-size B] <extra args>`
+            argv = ["batchie.py", "--mode", "retrospective" if cfg["mode"] == "r" else "prospective", "--outdir", output_dir,
+                    "--screen", input_screen]
+            if not (batch_size == 1 and cfg.get("default_batch")):
+                argv += ["--batch-size", str(batch_size)]
+            old = sys.argv
+            sys.argv = argv + list(EXTRA_ARGS)
+            try:
+                mod.main()
+            except SystemExit as e:
+                raise RuntimeError("argument error %s" % e.code)
+            finally:
+                sys.argv = old
+            return False
         pending = list(self.crashes)
         budget = pending.pop(0) if pending else None
         status = "no-termination"
@@ -584,7 +606,6 @@ class Run:
                     if self.restart and outcome[0] not in ("again", "halt"):
                         mod.subprocess = saved
                         mod = load_script(fresh=True)
-                        step = mod.run_next_retrospective_step if cfg["mode"] == "r" else mod.run_next_prospective_step
                         saved = mod.subprocess
                         mod.subprocess = types.SimpleNamespace(check_call=self.check_call)
                     self.segments[-1] += g.count
@@ -691,19 +712,14 @@ def judge(run, ref):
                 out.append(("deleted", "the directory of a completed step is deleted (%s)" % ("by the script's rmtree" if ev[0] == "R" else "on the script's advice"),
                             ev, "completed steps are never removed", None))
                 break
-    if run.extra_bad is not None:
-        out.append(("inputs", "the extra command-line arguments are not passed through to the pipeline unchanged, once, in order",
-                    run.extra_bad, EXTRA_ARGS, None))
+    ref_other = {st: l.get("other") for st, _t, _d, l in ref.launches}
     idx = 0
     for st, text, done, l in run.launches:
-        # absolute oracles (hold for the uninterrupted run too): which workflow runs at which step, from which inputs
-        mode_r = run.cfg["mode"] == "r"
-        want_wf = (0 if st == (0, 0) else 1 if st[1] == 0 else 2) if mode_r else (3 if st[1] == 0 else 2)
-        if l["wf"] != want_wf:
-            out.append(("inputs", "the wrong workflow is launched for this step", l["wf"], want_wf, idx))
-        if (l["wf"] in (0, 3) or not mode_r) and l["screen"] is not None:
-            out.append(("inputs", "a step that must start from the user's input screen is started from another file",
-                        show_ref(l["screen"]), "-", idx))
+        # (which workflow runs at which step and what the first step starts from is compared with the MODEL only -- the
+        #  property text does not say it; a change there ends in a broken tie, not in a replay)
+        if st in ref_other and ref_other[st] != l.get("other"):
+            out.append(("inputs", "a step is launched with other pass-through command-line arguments than in the uninterrupted run",
+                        l.get("other"), ref_other[st], idx))
         if l["wf"] == 1 and (l["test"] is None or (l["test"][0], l["test"][1]) != (0, 0)):
             out.append(("inputs", "the test screen of a later iteration is not taken from iter_0/plate_0", show_ref(l["test"]),
                         "a file of step [0, 0]", idx))
@@ -742,9 +758,11 @@ def judge(run, ref):
         idx += 1
     if completed != ref_done and run.status == "ok":
         out.append(("sequence", "the completed steps are not the uninterrupted sequence (each once, in order)", [list(s) for s in completed], [list(s) for s in ref_done], None))
-    if run.tree != ref.tree and run.status == "ok":
-        out.append(("tree", "the final output directory (recorded selections, screens, markers) differs from the uninterrupted run",
-                    run.tree[:600], ref.tree[:600], None))
+    if recorded(run.tree) != recorded(ref.tree) and run.status == "ok":
+        # only what the steps RECORD (selection, advanced screen, completion marker of every step directory); other
+        # differences of the directory (left-over empty directories, auxiliary files) are compared with the model only
+        out.append(("tree", "the selections / screens / markers recorded in the output directory differ from the uninterrupted run",
+                    recorded(run.tree)[:600], recorded(ref.tree)[:600], None))
     prio = ["deleted", "twice", "skipped", "inputs", "predecessor", "extra", "sequence", "tree", "finish", "state", "reference"]
     out.sort(key=lambda f: prio.index(f[0]))
     return out
@@ -757,6 +775,23 @@ def judge(run, ref):
 # a re-launch of a completed step, anything wrong at or before the interrupted launch, a next launch that is not that
 # successor, or anything in retrospective mode / with a marker-last workflow / without such an interruption.
 KNOWN_KEYS = ("skipped", "inputs", "extra", "sequence", "tree", "finish")
+
+
+def recorded(tree_text):
+    """the recorded results of a `show_tree` text: per step directory its selected_plate, advanced screen and marker"""
+    if tree_text in ("#", "-") or ":" not in tree_text:
+        return tree_text if tree_text.startswith("unexpected") else ""
+    out = []
+    for it in tree_text.split("|"):
+        a, b = it.split(":", 1)
+        if b == "_":
+            continue
+        for pl in b.split(";"):
+            j, sub = pl.split("=", 1)
+            keep = [f for f in sub.split(",") if f.split(".")[0] in ("0", "1", "6")] if sub not in ("!", "_") else []
+            if keep:
+                out.append("%s/%s=%s" % (a, j, ",".join(keep)))
+    return "|".join(out)
 
 
 def signature(run, finding):
@@ -780,26 +815,17 @@ def describe(cfg):
 
 def run_case(case, workdir, ref_cache=None):
     """-> (run, ref, findings)"""
-    cfg, crashes, pre = case["cfg"], case["crashes"], case.get("pre", 0)
-    key = (json.dumps(cfg, sort_keys=True), pre)
+    cfg, crashes, pre, main = case["cfg"], case["crashes"], case.get("pre", 0), bool(case.get("main"))
+    key = (json.dumps(cfg, sort_keys=True), pre, main)
     ref = ref_cache.get(key) if ref_cache is not None else None
     if ref is None:
-        ref = Run(cfg, [], workdir, pre).go()
+        ref = Run(cfg, [], workdir, pre, main=main).go()
         ref.cleanup()
         if ref_cache is not None:
             ref_cache[key] = ref
-    run = Run(cfg, crashes, workdir, pre).go()
+    run = Run(cfg, crashes, workdir, pre, main=main).go()
     run.cleanup()
     return run, ref, judge(run, ref)
-
-
-def state_findings(case, run, workdir):
-    run2 = Run(case["cfg"], case["crashes"], workdir, case.get("pre", 0), restart=True).go()
-    run2.cleanup()
-    if run2.observed() != run.observed():
-        return [("state", "rerunning in a fresh process behaves differently from rerunning in the process that ran "
-                 "earlier cases (module-level state)", run2.observed()[:400], run.observed()[:400], None)]
-    return []
 
 
 # ------------------------------------------------------------------------------------------------------
@@ -932,6 +958,8 @@ def configs(ctx):
             for extra in ((0,) if quick or P > 4 else (0, 1, 2)):
                 cfg = {"mode": "r", "B": B, "P": P, "nch": 2 if P < 7 else 1, "nck": 2 if P < 5 else 1,
                        "variant": (v + extra) % 3, "mfirst": False, "late": (0, 2, 1)[(v + B + extra) % 3]}
+                if B == 1 and P % 2 == 0:
+                    cfg["default_batch"] = True      # main()-driven runs omit --batch-size (argparse default 1)
                 out.append((cfg, 0, 1 if not quick else 2 if P <= (3 if B < 4 else 2) else 0))
             v += 1
         for mfirst in (True, False):
@@ -953,10 +981,19 @@ def explore(cfg, pre, pairs, workdir):
     cache = {}
     results = []
 
-    def one(crashes):
+    def one(crashes, main=False):
         case = {"cfg": cfg, "crashes": list(crashes), "pre": pre}
+        if main:
+            case["main"] = True
         run, ref, findings = run_case(case, workdir, cache)
         classes = set(run.saw)
+        if main:
+            # process state vs state re-read from disk: every process run is a call of the script's main() in a FRESH module
+            # (what a user restarting the script gets); anything the script keeps in memory across steps is lost at the
+            # interruption while the batch position is re-read from the output directory
+            classes.add("process-state.main-restart-%s" % ("retrospective" if cfg["mode"] == "r" else "prospective"))
+            if cfg["B"] == 1 and cfg.get("default_batch"):
+                classes.add("process-state.main-default-batch-size")
         if cfg["B"] == 1:
             classes.add("falsy.batch-size-1")
         if cfg["mode"] == "r" and run.status == "ok":
@@ -965,15 +1002,9 @@ def explore(cfg, pre, pairs, workdir):
             classes.add("size.plate-index>=2")
         if any(l["wf"] == 2 and l["excludes"] and len(l["excludes"]) >= 2 for _s, _t, _d, l in run.launches):
             classes.add("size.excludes>=2")
-        if len(crashes) == 1 and crashes[0] % 5 == 0 or not crashes:
-            # object/state reuse: the same case with a fresh module object after every interruption / exception (a process
-            # restart) must behave exactly like the rerun inside the long-lived module used for all other cases
-            classes.add("state-reuse.module-vs-restart")
-            sf = state_findings(case, run, workdir)
-            if sf:
-                case = dict(case, state_check=True)
-                findings = findings + sf
-        results.append({"case": case, "line": run.driver_line(), "observed": run.observed(), "findings": findings,
+        if not main:
+            classes.add("state-reuse.long-lived-module")     # one module object serves every step-function case of a check run
+        results.append({"case": case, "line": None if main else run.driver_line(), "observed": run.observed(), "findings": findings,
                         "classes": sorted(classes),
                         "sig": [signature(run, f) for f in findings], "nontrivial": run.hit_after_outdir,
                         "segments": run.segments, "window": run.in_window, "late_window": run.late_window,
@@ -987,8 +1018,11 @@ def explore(cfg, pre, pairs, workdir):
     if ref.status != "ok":
         return results
     n = ref.segments[0]
+    one([], main=True)
     for g1 in range(n):
         r1, _ = one([g1])
+        if g1 % 6 == 0:
+            one([g1], main=True)
         if pairs and len(r1.segments) > 1:
             for g2 in range(g1 % pairs, r1.segments[1], pairs):     # pairs = stride (1: every pair; quick tier: 2)
                 one([g1, g2])
@@ -1048,9 +1082,10 @@ def run(ctx, res):
                                 "actions_between_interruptions": r["segments"], "trace": r["observed"][:400]}, limit=4)
                 for f, sig in zip(r["findings"], r["sig"]):
                     failures.append((sig == KNOWN_SIG, "%s [%s]" % (f[1], describe(cfg)), r["case"], f[2], f[3], sig))
-                lines.append(r["line"])
-                expect.append(r["observed"])
-                metas.append(r["case"])
+                if r["line"] is not None:      # main()-driven cases: oracles only (the model tie is per call of the step function)
+                    lines.append(r["line"])
+                    expect.append(r["observed"])
+                    metas.append(r["case"])
         # Result keeps at most 50 failures: report the ones that are not the known finding first
         failures.sort(key=lambda f: f[0])
         n_known = 0
@@ -1117,8 +1152,6 @@ def replay(ctx, case, res):
                          signature="C19:empty-iteration-directory")
             return
         run, ref, findings = run_case(case, base)      # (the reference run before it has already used the module object)
-        if case.get("state_check"):
-            findings = findings + state_findings(case, run, base)
         for f in findings:
             res.fail("%s [%s]" % (f[1], describe(case["cfg"])), case, f[2], f[3], signature=signature(run, f))
     finally:
